@@ -53,6 +53,7 @@ def main():
     ap.add_argument("-j", type=int, default=8)
     ap.add_argument("--timeout", type=int, default=300)
     ap.add_argument("--log", default="/tmp/c20_run.log")
+    ap.add_argument("--no-min", action="store_true", help="overwrite the recorded time instead of keeping the minimum")
     ap.add_argument("--results", default=os.path.join(ROOT, "tools", "results.json"))
     a = ap.parse_args()
     meta = load_meta()
@@ -82,6 +83,9 @@ def main():
         r = res.get("h::" + n)
         if r is None:
             bad.append((n, "NO RESULT")); continue
+        old = allres.get(n)
+        if old and old.get("status") == r["status"] and old.get("time") and r["time"] and not a.no_min:
+            r["time"] = min(r["time"], old["time"])   # machine load varies a lot: keep the best measurement
         allres[n] = r
         expect = "FAILED" if sf.get(n) else "SUCCESSFUL"
         if r["status"] != expect or (sf.get(n) and r["timeout"]):
